@@ -145,6 +145,7 @@ class Flattener:
         self._fn_by_id: Dict[int, FunctionInfo] = {id(f.node): f for f in prog.functions()}
         self._value_uses = self._names_used_as_values()
         self.nested_created: Dict[int, Set[str]] = {}
+        self.builders: Dict[Tuple[int, str], Dict[int, int]] = {}
 
     # ------------------------------------------------------------------ facts
     def _names_used_as_values(self) -> Dict[str, int]:
@@ -385,6 +386,67 @@ class Flattener:
             whole = True
         return whole
 
+    def _list_builder(self, f: FunctionInfo, name: str, d: ast.Assign) -> bool:
+        """``L = [a]; L.append(b); L.append(c); x, y, z = L``: a list literal grown by unconditional appends in the same
+        straight-line block and only read field-wise afterwards is a tuple built in instalments."""
+        blk = None
+        par = self._parents.get(id(d))
+        for fld in ("body", "orelse", "finalbody"):
+            b = getattr(par, fld, None)
+            if isinstance(b, list) and any(x is d for x in b):
+                blk = b
+        if blk is None:
+            return False
+        di = next(i for i, x in enumerate(blk) if x is d)
+        elems = list(d.value.elts)
+        if any(isinstance(e, ast.Starred) for e in elems):
+            return False
+        appends = {}
+        last = di
+        occ = [n for n in _own_nodes(f.node) if isinstance(n, ast.Name) and n.id == name and n is not d.targets[0]]
+        used = set()
+        for i in range(di + 1, len(blk)):
+            st = blk[i]
+            names_here = [n for n in ast.walk(st) if isinstance(n, ast.Name) and n.id == name]
+            if not names_here:
+                continue
+            if (isinstance(st, ast.Expr) and isinstance(st.value, ast.Call) and isinstance(st.value.func, ast.Attribute) and st.value.func.attr == "append"
+                    and isinstance(st.value.func.value, ast.Name) and st.value.func.value.id == name and len(st.value.args) == 1 and not st.value.keywords
+                    and len(names_here) == 1):
+                appends[id(st)] = len(elems)
+                elems.append(st.value.args[0])
+                last = i
+                used.add(id(names_here[0]))
+                continue
+            break
+        if not appends or len(elems) < 2:
+            return False
+        # every other occurrence lies in a statement of this block after the last append
+        later = {id(n) for st in blk[last + 1:] for n in ast.walk(st)}
+        rest = [n for n in occ if id(n) not in used]
+        if not rest or any(id(n) not in later for n in rest):
+            return False
+        k = (id(f.node), name)
+        shape = ("tup", str(len(elems)), tuple(str(i) for i in range(len(elems))))
+        self.var_shape[k] = shape
+        # the append statements hold the name in a non-field-wise position: judge the remaining uses only
+        saved = {id(n): n.id for n in occ if id(n) in used}
+        for n in occ:
+            if id(n) in used:
+                n.id = name + "__builder"
+        try:
+            w = self._classify_uses(f, name, shape)
+        finally:
+            for n in occ:
+                if id(n) in saved:
+                    n.id = saved[id(n)]
+        if w is None or w or not self._fieldwise_seen:
+            del self.var_shape[k]
+            return False
+        self.whole[k] = False
+        self.builders[k] = appends
+        return True
+
     def _is_flat_argument(self, fn: FunctionInfo, n, par) -> bool:
         """n is passed directly to a parameter that is itself replaced by its fields."""
         call = par if isinstance(par, ast.Call) else self._parents.get(id(par)) if isinstance(par, ast.keyword) else None
@@ -530,6 +592,9 @@ class Flattener:
                     k = (id(f.node), name)
                     if k in self.var_shape or name in bad or name in params or name in nested[id(f.node)]:
                         continue
+                    if len(defs) == 1 and isinstance(defs[0], ast.Assign) and isinstance(defs[0].value, ast.List) and self._list_builder(f, name, defs[0]):
+                        changed = True
+                        continue
                     shapes = [self.shape_of(f, d.value) for d in defs]
                     cand = next((s_ for s_ in shapes if s_ is not None), None)
                     if cand is None:
@@ -601,6 +666,8 @@ class Flattener:
         # whole uses, once more, now that the flattened parameters are known
         for k, sh in list(self.var_shape.items()) + list(self.param_shape.items()):
             f = self._fn_by_id.get(k[0])
+            if k in self.builders:
+                continue
             if f is not None:
                 w = self._classify_uses(f, k[1], sh)
                 if w is not None:
@@ -793,6 +860,9 @@ class Flattener:
                     el = fl.elements(value2, self.fn)
                     names = [fl._field_name(target.id, f) for f in sh[2]]
                     out = []
+                    if (self.fid, target.id) in fl.builders and isinstance(value2, ast.List):
+                        # the literal part of a list built in instalments (the appends define the remaining fields)
+                        return [ast.copy_location(ast.Assign(targets=[ast.Name(id=nm, ctx=ast.Store())], value=ex), node) for nm, ex in zip(names, value2.elts)] or [ast.copy_location(ast.Pass(), node)]
                     if el is not None and len(el) == len(names):
                         # element i may read a field that an earlier element assignment of this statement overwrites
                         # (``t = (t[1], t[0])``): then all fields are assigned at once
@@ -814,6 +884,16 @@ class Flattener:
                         out.append(ast.copy_location(ast.Assign(targets=[ast.Name(id=target.id, ctx=ast.Store())], value=rebuilt), node))
                     return out
                 return None
+
+            def visit_Expr(self, node):
+                c = node.value
+                if isinstance(c, ast.Call) and isinstance(c.func, ast.Attribute) and c.func.attr == "append" and isinstance(c.func.value, ast.Name):
+                    b = fl.builders.get((self.fid, c.func.value.id))
+                    if b is not None and id(node) in b:
+                        fld = str(b[id(node)])
+                        val = self.visit(c.args[0])
+                        return ast.copy_location(ast.Assign(targets=[ast.Name(id=fl._field_name(c.func.value.id, fld), ctx=ast.Store())], value=val), node)
+                return self.generic_visit(node)
 
             def visit_Assign(self, node):
                 if len(node.targets) == 1:
